@@ -163,6 +163,7 @@ func genC16(r *rng.R, tier string, steer bool, idx int) *trace.Trace {
 	var dsets, groups, all []string
 	groups = append(groups, "/")
 	resizable := map[string][]uint64{}
+	var resizableList []string
 	nameN := 0
 	join := func(g, nm string) string {
 		if g == "/" {
@@ -288,6 +289,7 @@ func genC16(r *rng.R, tier string, steer bool, idx int) *trace.Trace {
 					op.MaxDims[k] = op.Dims[k] + 4
 				}
 				resizable[path] = op.MaxDims
+				resizableList = append(resizableList, path)
 			}
 			t.Ops = append(t.Ops, op)
 			dsets = append(dsets, path)
@@ -339,13 +341,15 @@ func genC16(r *rng.R, tier string, steer bool, idx int) *trace.Trace {
 				t.Ops = append(t.Ops, trace.Op{Op: "restart", Mode: "open_for_write"})
 			}
 		case 7:
-			for p, md := range resizable {
+			// (never range over the map: iteration order is not a function of the seed)
+			if len(resizableList) > 0 {
+				p := rng.Pick(r, resizableList)
+				md := resizable[p]
 				nd := make([]uint64, len(md))
 				for k := range nd {
 					nd[k] = uint64(r.Range(1, int(md[k])))
 				}
 				t.Ops = append(t.Ops, trace.Op{Op: "resize", Path: p, Dims: nd})
-				break
 			}
 		}
 	}
@@ -540,11 +544,11 @@ func execC12(t *trace.Trace, dir string) *harness.RunResult {
 func init() {
 	harness.Register(&harness.Prop{
 		ID: "C13", Engine: "E1", Level: "exploration", Gen: genC13, Exec: execC13,
-		Runs:      map[string]int{"quick": 300000, "thorough": 9000000},
-		Rule:      "seeded histories of Resize/Write (+ attribute writes, restarts) on a resizable chunked dataset of rank 1-3 with fixed and unlimited maximum dimensions; a model array is resized with the same calls; every Resize within maxdims must succeed and one beyond must fail; after the restart shape and values must equal the model; non-trivial = >= 2 successful resizes with a successful write between them and values verified after a restart; distinct by (superblock version, type, rank, op-kind sequence, filters)",
-		Technique: "deterministic simulation: seeded resize/write/restart histories vs array model over a simulated disk",
+		Runs:        map[string]int{"quick": 300000, "thorough": 9000000},
+		Rule:        "seeded histories of Resize/Write (+ attribute writes, restarts) on a resizable chunked dataset of rank 1-3 with fixed and unlimited maximum dimensions; a model array is resized with the same calls; every Resize within maxdims must succeed and one beyond must fail; after the restart shape and values must equal the model; non-trivial = >= 2 successful resizes with a successful write between them and values verified after a restart; distinct by (superblock version, type, rank, op-kind sequence, filters)",
+		Technique:   "deterministic simulation: seeded resize/write/restart histories vs array model over a simulated disk",
 		Assumptions: []string{"elements never written read as zero (statement); values are compared through Read(), or an error is accepted for types without a documented typed read"},
-		RealVsStub: realVsStub,
+		RealVsStub:  realVsStub,
 	})
 	harness.Register(&harness.Prop{
 		ID: "C16", Engine: "E1", Level: "exploration", Gen: genC16, Exec: execC16,
@@ -557,19 +561,19 @@ func init() {
 	})
 	harness.Register(&harness.Prop{
 		ID: "C10", Engine: "E1", Level: "exploration", Gen: genC10, Exec: execC10,
-		Runs:      map[string]int{"quick": 100000, "thorough": 2500000},
-		Rule:      "seeded base files (1-4 datasets, attributes, groups; all superblock versions) followed by 1-5 OpenForWrite sessions of 0-10 supported operations (attribute upserts/deletes via OpenDataset, data overwrite, object creation); after each session the logical dump must equal the model with exactly that session's successful operations applied; a session without calls must leave the file byte-identical (SHA-256); non-trivial = >= 2 sessions and >= 1 successful modification; distinct by (superblock version, per-session op-kind sequence)",
-		Technique: "deterministic simulation: multi-session open-modify-close histories vs model; restart = only file bytes survive",
+		Runs:        map[string]int{"quick": 100000, "thorough": 2500000},
+		Rule:        "seeded base files (1-4 datasets, attributes, groups; all superblock versions) followed by 1-5 OpenForWrite sessions of 0-10 supported operations (attribute upserts/deletes via OpenDataset, data overwrite, object creation); after each session the logical dump must equal the model with exactly that session's successful operations applied; a session without calls must leave the file byte-identical (SHA-256); non-trivial = >= 2 sessions and >= 1 successful modification; distinct by (superblock version, per-session op-kind sequence)",
+		Technique:   "deterministic simulation: multi-session open-modify-close histories vs model; restart = only file bytes survive",
 		Assumptions: []string{"files written by the reference library are not used as base files in this check (library-created files only)"},
-		RealVsStub: realVsStub,
+		RealVsStub:  realVsStub,
 	})
 	harness.Register(&harness.Prop{
 		ID: "C12", Engine: "E1", Level: "exploration", Gen: genC12, Exec: execC12,
-		Runs:      map[string]int{"quick": 100000, "thorough": 1500000},
-		Rule:      "seeded variable-length datasets (strings and numeric sequences; counts 1-60 quick / 1-2000 thorough; element lengths 0,1,7,8,9,4063..4081,>64KiB; bytes incl. NUL; contiguous and chunked; several datasets share collections), Close, Open; Info must report a variable-length class and the string reader must return the elements or an error; non-trivial = a vlen dataset written and the file reopened; distinct by (superblock version, types, chunking, large-element flag)",
-		Technique: "deterministic simulation: seeded vlen write/restart/read histories vs model over a simulated disk",
+		Runs:        map[string]int{"quick": 100000, "thorough": 1500000},
+		Rule:        "seeded variable-length datasets (strings and numeric sequences; counts 1-60 quick / 1-2000 thorough; element lengths 0,1,7,8,9,4063..4081,>64KiB; bytes incl. NUL; contiguous and chunked; several datasets share collections), Close, Open; Info must report a variable-length class and the string reader must return the elements or an error; non-trivial = a vlen dataset written and the file reopened; distinct by (superblock version, types, chunking, large-element flag)",
+		Technique:   "deterministic simulation: seeded vlen write/restart/read histories vs model over a simulated disk",
 		Assumptions: []string{"where no vlen reader exists an error is accepted, never different values"},
-		RealVsStub: realVsStub,
+		RealVsStub:  realVsStub,
 	})
 }
 
